@@ -520,33 +520,37 @@ def run_property(pid, tier, seed, units, quiet=False):
 
 def selftest(pid, seed):
     """thorough tier: run the quick check of this property against every archived seeded change that names it
-    (scratch copy of the sources outside /repo and /verif, removed afterwards). Returns the kill matrix."""
+    (scratch copies of the sources outside /repo and /verif, removed afterwards; three at a time). Returns the kill matrix."""
     import tempfile
-    rows = []
+    dirs = []
     for d in sorted(glob.glob(os.path.join(VERIF, 'seeded', '*'))):
         try:
             meta = json.load(open(os.path.join(d, 'meta.json')))
         except Exception:
             continue
-        if meta.get('property') != pid:
-            continue
+        if meta.get('property') == pid:
+            dirs.append(d)
+
+    def one(d):
         scratch = tempfile.mkdtemp(prefix='verif_selftest_')
         try:
             os.makedirs(os.path.join(scratch, 'regexml'))
             shutil.copytree(os.path.join(os.environ.get('VERIF_REPO', '/repo'), 'regexml', 'src'), os.path.join(scratch, 'regexml', 'src'))
             pr = subprocess.run(['patch', '-p1', '-s', '-d', scratch, '-i', os.path.join(d, 'patch.diff')], capture_output=True, text=True)
             if pr.returncode != 0:
-                rows.append({'change': os.path.basename(d), 'result': 'skipped: patch no longer applies'})
-                continue
-            env = dict(os.environ, VERIF_REPO=scratch, VERIF_EVIDENCE_DIR='build/selftest_ev', VERIF_SEED=str(seed))
-            cr = subprocess.run([os.path.join(VERIF, 'check'), pid, '--tier', 'quick'], cwd=VERIF, env=env, capture_output=True, text=True, timeout=1800)
+                return {'change': os.path.basename(d), 'result': 'skipped: patch no longer applies'}
+            env = dict(os.environ, VERIF_REPO=scratch, VERIF_EVIDENCE_DIR='build/selftest_ev_' + os.path.basename(d), VERIF_SEED=str(seed))
+            cr = subprocess.run([os.path.join(VERIF, 'check'), pid, '--tier', 'quick'], cwd=VERIF, env=env, capture_output=True, text=True, timeout=3600)
             obl = sorted(set(re.findall(r'obligation=(\S+)', cr.stdout)))
-            rows.append({'change': os.path.basename(d), 'exit': cr.returncode,
-                         'result': 'killed' if cr.returncode == 1 else ('undecided' if cr.returncode == 2 else 'survived'),
-                         'obligations': obl[:6]})
+            return {'change': os.path.basename(d), 'exit': cr.returncode,
+                    'result': 'killed' if cr.returncode == 1 else ('undecided' if cr.returncode == 2 else 'survived'),
+                    'obligations': obl[:6]}
         finally:
             shutil.rmtree(scratch, ignore_errors=True)
-    return rows
+            shutil.rmtree(os.path.join(VERIF, 'build', 'selftest_ev_' + os.path.basename(d)), ignore_errors=True)
+
+    with cf.ThreadPoolExecutor(max_workers=3) as ex:
+        return list(ex.map(one, dirs))
 
 
 EXPLORE_SEED = {'quick': 0, 'thorough': 11}
